@@ -132,8 +132,8 @@ def fmtErr : Err → String
 def initialStore : Store :=
   { loose := [(nameOfString "HEAD", .symbolic (nameOfString "refs/heads/a"))] }
 
-/-- one operation: `none` = malformed, `some (obs, none)` = the history ends (hang) -/
-def histOp (wk : WalkKind) (S : Store) : List String → Option (String × Option Store)
+/-- a transaction -/
+def txnOp (wk : WalkKind) (S : Store) : List String → Option (String × Option Store)
   | "txn" :: mode :: rf :: pf :: edits => do
     let mode ← parseMode mode
     let _ ← parseFail ((rf.dropPrefix? "rf=").map (·.toString) |>.getD "?")
@@ -144,6 +144,31 @@ def histOp (wk : WalkKind) (S : Store) : List String → Option (String × Optio
     | .err e S' => some (fmtErr e ++ "#" ++ dump S', some S')
     | .panic S' => some ("panic#" ++ dump S', some S')
     | .hang => some ("hang", none)
+  | _ => none
+
+/-- what the other writer of a `race` does to packed-refs: `+name=oid` / `-name` -/
+def parseMods (s : String) : Option (List (Name × Option Oid)) :=
+  if s == "-" then some [] else
+  (s.splitOn ",").mapM fun m =>
+    if m.startsWith "+" then
+      match ((m.drop 1).toString).splitOn "=" with
+      | [n, o] => if validName n then (oidOfString o).map fun o => (nameOfString n, some o) else none
+      | _ => none
+    else if m.startsWith "-" then
+      let n := (m.drop 1).toString
+      if validName n then some (nameOfString n, none) else none
+    else none
+
+/-- one operation: `none` = malformed, `some (obs, none)` = the history ends (hang) -/
+def histOp (wk : WalkKind) (S : Store) : List String → Option (String × Option Store)
+  | "txn" :: rest => txnOp wk S ("txn" :: rest)
+  | "race" :: mods :: rest => do
+    -- another writer rewrites packed-refs and releases packed-refs.lock while the transaction
+    -- waits for it: the transaction reads packed-refs under the lock, so the outcome is the
+    -- sequential composition (Props.C16.packed_writers_linearizable)
+    let mods ← parseMods mods
+    let S1 : Store := { S with packed := some (mergeAll (bufferList S.packed) (sortEdits mods)) }
+    txnOp wk S1 rest
   | ["gitpack-refs", "all=1", prune] => do
     let prune ← (if prune == "prune=1" then some true else if prune == "prune=0" then some false else none)
     -- without HEAD the directory is not a repository for git
